@@ -1,13 +1,14 @@
 #!/bin/bash
 # tools/seed_eval.sh <seeded dir> <tier> <ids...>: evaluates the checks against a seeded change in a scratch worktree
 # (VERIF_REPO), leaving /repo alone. Prints one line per check.
+here="$(dirname "$(dirname "$(readlink -f "$0")")")"
 sd="$(readlink -f "$1")"; tier="$2"; shift 2
 name=$(basename "$(dirname "$sd")")-$(basename "$sd")
 wt=/tmp/wte/$name
 rm -rf "$wt"; git -C /repo worktree prune; git -C /repo worktree add -q --detach "$wt" HEAD || exit 2
 git -C "$wt" apply "$sd/patch.diff" || { echo "patch does not apply"; exit 2; }
 for id in "$@"; do
-  out=$(VERIF_REPO="$wt" VERIF_NOEVIDENCE=1 /verif/check "$id" "$tier" 2>&1); rc=$?
+  out=$(VERIF_REPO="$wt" VERIF_NOEVIDENCE=1 "$here/check" "$id" "$tier" 2>&1); rc=$?
   invs=$(echo "$out" | grep -oE "^  [A-Za-z]+( failed|:)" | sed 's/ failed//; s/://' | sort | uniq -c | sort -rn | awk '{printf "%s(%s) ", $2, $1}')
   [ $rc -eq 2 ] && echo "$out" | tail -5 | cut -c1-300
   echo "$name $id $tier rc=$rc VIOLATION=$(echo "$out" | grep -c '^VIOLATION') NONCONFORMANCE=$(echo "$out" | grep -c '^NONCONFORMANCE') $invs"
